@@ -10,7 +10,7 @@ import copy
 import torch
 
 from ..core import History, Inconclusive, Stats, Violation, bit_equal, thash
-from ..gen import (PATH_DEPENDENT, STOCK_KINDS, bs_ok, features_for, gen_barrier, gen_derivative, gen_feature_set,
+from ..gen import (gen_price_scale, PATH_DEPENDENT, STOCK_KINDS, bs_ok, features_for, gen_barrier, gen_derivative, gen_feature_set,
                    gen_hedger, gen_primary)
 from ..market import (buffers_equal_truth, corrupt_future, reachable_primaries, restore, reveal_column, truth_of)
 from ..world import (DT, HAS_VOL, OPTION_KINDS, RecModel, World, abstract_state, build_feature, cast_module_outputs,
@@ -30,7 +30,7 @@ COMPONENTS = {
              "market feed: simulator writes garbage / truth into instrument buffers", "user pricers for listed hedges"],
 }
 ASSUMPTIONS = ["bitwise comparison with the clean run (NaN == NaN)", "'empty' feature excluded", "CPU only"]
-PROBES = ["earlier_pass_aborted", "online_feed", "offline_vectorised", "offline_stepwise", "feature_single_step", "feature_all_steps",
+PROBES = ["price_scale_not_one", "earlier_pass_aborted", "online_feed", "offline_vectorised", "offline_stepwise", "feature_single_step", "feature_all_steps",
           "path_dependent_feature", "listed_hedge", "maturity_no_trade", "bs_model", "ww_model", "module_output",
           "fill_nan", "fill_rand", "fill_huge", "grad_enabled_run", "kept_feature_object"]
 FILLS = ["rand", "rand", "huge", "nan", "neg", "zero"]
@@ -93,7 +93,7 @@ def generate(rng):
                 f = {"f": "module_output", "module": {"kind": "bs", "derivative": "d0"}, "inputs": list(BS_INPUTS[d["kind"]])}
             ops.append({"op": "feature", "feature": f, "derivative": "d0", "t_star": rng.randint(0, max(0, steps - 1)),
                         "fill": fill, "seed": rng.seed31()})
-    return {"profile": "c02", "env": {"default_dtype": "float32"}, "world": world, "ops": ops}
+    return {"profile": "c02", "env": {"default_dtype": "float32"}, "world": world, "ops": ops, "init": gen_price_scale(rng, prim["kind"])}
 
 
 def execute(program):
@@ -115,6 +115,9 @@ def _is_pd(fs):
 
 
 def _execute(program, stats, hist):
+    INIT = tuple(program["init"]) if program.get("init") else None
+    if INIT is not None:
+        stats.probe("price_scale_not_one")
     torch.set_default_dtype(DT[program["env"].get("default_dtype", "float32")])
     try:
         world = World(program["world"])
@@ -130,7 +133,7 @@ def _execute(program, stats, hist):
             torch.manual_seed(op["torch_seed"])
             try:
                 d = world.derivatives[op["target"]]
-                d.simulate(n_paths=op["n_paths"])
+                d.simulate(n_paths=op["n_paths"], init_state=INIT)
             except Exception as e:
                 raise Inconclusive("simulate raised %r" % (e,))
             stats.market_years += op["n_paths"] * d.maturity
